@@ -1,11 +1,12 @@
 (* C20  Move hooks see the true move and extrusion matches path length.
    Model: model/Builder.v -- _prepare_move threads the parameters through the registered hooks (a
-   small hook language: recording hook, parameter-setting hook, the bundled extrusion hook with
+   small hook language: recording hook, parameter-setting hook, word-dropping hook (returns a new mapping),
+   the bundled extrusion hook with
    math.hypot modelled by a square root correct to 2^-60), _track_move_params, the statement, and
    _update_axes. *)
 From Coq Require Import ZArith QArith Bool List String.
 From GS Require Import model.Num model.Builder proofs.FlagsProofs proofs.BoundsProofs proofs.MirrorProofs proofs.TrackProofs
-  proofs.HooksProofs proofs.ExtrudeProofs.
+  proofs.HooksProofs proofs.ExtrudeProofs proofs.HookMoveProofs model.Interp.
 Import ListNotations.
 Open Scope string_scope.
 
@@ -53,6 +54,27 @@ Theorem C20_length : forall q, (0 <= q)%Q ->
   (qsqrt q * qsqrt q <= q)%Q /\ (q < (qsqrt q + (1 # Pos.pow 2 60)) * (qsqrt q + (1 # Pos.pow 2 60)))%Q.
 Proof. exact qsqrt_bounds. Qed.
 Print Assumptions C20_length.
+
+(* "the true origin and target", measured against the emitted program.  For every history (no
+   transform, no C05 leak) and every accepted linear move() in it: each registered hook is called
+   exactly once, with origin = the builder's position before the move and target = its position after
+   the move -- and those two positions are the ones an independent interpreter (model/Interp.v,
+   [pinterp_lines], the C01 machine) derives from the lines emitted before, respectively up to and
+   including, that move ([Agree]: same distance mode, every axis the machine knows within the
+   accumulated output rounding).  Bypass moves and path segments go through the same [do_move]
+   (C20_called_once, C20_true_target hold for them as stated there). *)
+Theorem C20_hook_sees_program_move : forall dp cs1 r ps cs2,
+  let c := Move Linear r ps in
+  Forall cmd_ok1 (cs1 ++ c :: cs2) -> clean_run dp init (cs1 ++ c :: cs2) ->
+  let s := final dp init cs1 in
+  let s' := final dp init (cs1 ++ [c]) in
+  err_of (step1 dp s c) = None ->
+  Agree dp s (pinterp_lines pmach0 (output dp init cs1)) /\
+  Agree dp s' (pinterp_lines pmach0 (output dp init (cs1 ++ [c]))) /\
+  Forall (call_ok (pos s) (pos s')) (calls_of (step1 dp s c)) /\
+  List.length (calls_of (step1 dp s c)) = List.length (hooks s).
+Proof. exact hook_sees_program_move. Qed.
+Print Assumptions C20_hook_sees_program_move.
 
 (* the running total over whole histories.  With the bundled extrusion hook as the only hook and
    absolute extrusion mode ([extruding]), for EVERY history of calls that contains no explicit E
